@@ -57,7 +57,7 @@ StepNames == [
            "rlimit_nofile", "os", "querylog", "statistics", "bind_host", "bind_port",
            "web_session_ttl", "http", "log_file", "log_max_backups", "log_max_size", "log_max_age",
            "log_compress", "log_localtime", "verbose", "log", "debug_pprof", "filtering", "filters",
-           "cl0", "fl0", "zz_extra"},
+           "cl0", "cl1", "cl2", "fl0", "zz_extra", "whitelist_filters"},
   dns |-> {"bootstrap_dns", "bind_host", "bind_hosts", "autohost_tld", "local_domain_name",
            "upstream_dns", "local_ptr_upstreams", "querylog_interval", "resolve_clients",
            "querylog_enabled", "querylog_file_enabled", "querylog_size_memory",
@@ -92,7 +92,14 @@ SecKey(f) == IF f = "top" THEN "" ELSE IF f = "dhcpv4" THEN "dhcp.dhcpv4" ELSE f
 
 StepPairs == UNION {{<<SecKey(f), n>> : n \in StepNames[f]} : f \in DOMAIN StepNames}
 BasePairs == UNION {{<<Base[i].cells[j].p, Base[i].cells[j].n>> : j \in DOMAIN Base[i].cells} : i \in DOMAIN Base}
-AllPairs  == StepPairs \cup BasePairs
+\* The client list is a list of records: its elements are the pseudo sections
+\* cl0, cl1, cl2 with the same children (the golden files have one client;
+\* documents with two and three clients of different shapes are built from
+\* it, see FamDoc).
+ElemSeq   == <<"cl0", "cl1", "cl2">>
+ElemKeys  == {"cl0", "cl1", "cl2"}
+ElNames   == {p[2] : p \in {q \in StepPairs \cup BasePairs : q[1] = "cl0"}}
+AllPairs  == StepPairs \cup BasePairs \cup {<<e, n>> : e \in ElemKeys, n \in ElNames}
 Keys      == {K0(p[1], p[2]) : p \in AllPairs}
 Secs      == {p[1] : p \in AllPairs} \ {""}
 \* String concatenation interns the result under a global lock in TLC: the
@@ -104,7 +111,8 @@ Kids(k)   == IF k \in Secs THEN ChildMap[k] ELSE {}
 \* Descendants (sections nest at most two deep).
 DescMap   == [k \in Keys |-> Kids(k) \cup UNION {Kids(c) : c \in Kids(k)}]
 D(k)      == DescMap[k]
-ClSub     == {"cl0"} \cup D("cl0")
+ClSub     == ElemKeys \cup UNION {D(e) : e \in ElemKeys}
+ElK(ns)   == {K0(e, n) : e \in ElemKeys, n \in ns}
 
 \* ------------------------------------------------------------------ cells
 C(t, v) == [t |-> t, v |-> v]
@@ -130,6 +138,22 @@ BadElems == {"lit:[1.5,null]"}
 \* string / not an object; steps that walk a list may refuse those.)
 OddStrs  == "lit:[\"\",\"#c\",\"[/x/\",\"[/x/]quic://8.8.8.8\",\"quic://[::1\",\"quic://a:b:c\",\"://\",\"quic://\"]"
 DotList  == "lit:[\".\",\"a\",1.5]"
+\* Lists of records with elements of different shapes.  The three filter
+\* records (URL, absolute path, no URL) come in all six orders; users,
+\* rewrites and allow-list filters get three records with different key sets.
+FA == "{\"url\":\"https://a.example/f.txt\",\"name\":\"A\",\"enabled\":true,\"id\":1}"
+FB == "{\"url\":\"/path/to/file.txt\",\"name\":\"B\",\"enabled\":false,\"id\":2}"
+FC == "{\"name\":\"C\",\"enabled\":true,\"id\":3}"
+L3(a, b, c) == "lit:[" \o a \o "," \o b \o "," \o c \o "]"
+Perms == [perm1 |-> L3(FA, FB, FC), perm2 |-> L3(FA, FC, FB), perm3 |-> L3(FB, FA, FC),
+          perm4 |-> L3(FB, FC, FA), perm5 |-> L3(FC, FA, FB), perm6 |-> L3(FC, FB, FA)]
+RecsLit(k) ==
+    CASE k = "users" -> L3("{\"name\":\"u1\",\"password\":\"p1\"}", "{\"name\":\"u2\"}",
+                           "{\"name\":\"u3\",\"password\":\"p3\",\"zz_extra\":\"zz\"}")
+      [] k = "whitelist_filters" -> L3(FB, FC, FA)
+      [] OTHER -> L3("{\"domain\":\"a.example\",\"answer\":\"1.2.3.4\"}", "{\"domain\":\"b.example\"}",
+                     "{\"domain\":\"*.c.example\",\"answer\":\"a.example\",\"zz_extra\":\"zz\"}")
+RecKeys(v) == {"users", "whitelist_filters"} \cup (IF v < 26 THEN {"dns.rewrites"} ELSE {"filtering.rewrites"})
 NotAllStr == BadElems \cup {DotList}
 NotAllObj == BadElems \cup {DotList, OddStrs}
 \* A password longer than bcrypt accepts (80 bytes).
@@ -196,6 +220,10 @@ MoveSeq(O, ms) == IF ms = <<>> THEN O ELSE MoveSeq(Bind(O, LAMBDA x : Move(x, He
 \* The element of the client list, if the list is there and not empty.
 HasElem(d, listCell) == listCell.v = "cl" /\ d["cl0"].t # "absent"
 ElemObj(d) == d["cl0"].t = "obj"
+\* The steps that walk the client list do the same to every element, in order.
+El(d, e, Op(_, _)) == IF d[e].t = "absent" THEN {Ok(d)} ELSE Op(d, e)
+MapElems(d, Op(_, _)) ==
+    Bind(Bind(El(d, "cl0", Op), LAMBDA x : El(x, "cl1", Op)), LAMBDA y : El(y, "cl2", Op))
 \* A client list that is not the tracked one (a literal put there by a
 \* deviation): a non-object element is {error, skip} like for cl0.
 Untracked(d, listCell) == IF listCell.v \in NotAllObj THEN {Ok(d), ErrO} ELSE {Ok(d)}
@@ -212,12 +240,10 @@ S3(d) == WithSec(d, "dns", LAMBDA x :
            {IF w.k = "yes" THEN Ok(Put(x, "dns", "bootstrap_dns", C("list", "wrap:" \o w.c.v))) ELSE Ok(x)
               : w \in FV(x["dns.bootstrap_dns"], "any")})
 
+E4(d, e) == IF d[e].t = "obj" THEN {Ok(Put(d, e, "use_global_blocked_services", True))} ELSE {Ok(d), ErrO}
 S4(d) == UNION {CASE w.k = "err" -> {ErrO}
                   [] w.k = "no" -> {Ok(d)}
-                  [] OTHER -> IF HasElem(d, w.c)
-                                THEN IF ElemObj(d) THEN {Ok(Put(d, "cl0", "use_global_blocked_services", True))}
-                                     ELSE {Ok(d), ErrO}
-                                ELSE Untracked(d, w.c)
+                  [] OTHER -> IF HasElem(d, w.c) THEN MapElems(d, E4) ELSE Untracked(d, w.c)
                 : w \in FV(d["clients"], "list")}
 
 S5(d) == UNION {IF n.k = "err" \/ p.k = "err" THEN {ErrO}
@@ -228,16 +254,15 @@ S5(d) == UNION {IF n.k = "err" \/ p.k = "err" THEN {ErrO}
                                !["users"] = C("list", "users:" \o VOf(n) \o "|" \o p.c.v)])}
                 : n \in FV(d["auth_name"], "str"), p \in FV(d["auth_pass"], "str")}
 
+E6(d, e) == IF d[e].t = "obj"
+              THEN UNION {IF i.k = "err" \/ m.k = "err" THEN {ErrO}
+                          ELSE {Ok(Put(d, e, "ids", C("list", "ids:" \o VOf(i) \o "|" \o VOf(m))))}
+                          : i \in FV(d[K(e, "ip")], "str"), m \in FV(d[K(e, "mac")], "str")}
+              ELSE {ErrO, Ok(d)}
 S6(d) == UNION {CASE w.k = "err" -> {ErrO}
                   [] w.k = "no" -> {Ok(d)}
                   [] OTHER ->
-                     IF HasElem(d, w.c)
-                       THEN IF ElemObj(d)
-                              THEN UNION {IF i.k = "err" \/ m.k = "err" THEN {ErrO}
-                                          ELSE {Ok(Put(d, "cl0", "ids", C("list", "ids:" \o VOf(i) \o "|" \o VOf(m))))}
-                                          : i \in FV(d["cl0.ip"], "str"), m \in FV(d["cl0.mac"], "str")}
-                              ELSE {ErrO, Ok(d)}
-                       ELSE Untracked(d, w.c)
+                     IF HasElem(d, w.c) THEN MapElems(d, E6) ELSE Untracked(d, w.c)
                 : w \in FV(d["clients"], "list")}
 
 S7(d) == WithSec(d, "dhcp", LAMBDA y :
@@ -330,19 +355,17 @@ S18(d) == WithSec(d, "dns", LAMBDA x :
                [] OTHER -> Ok(Put(Del(x, "dns", "safesearch_enabled"), "dns", "safe_search", C("obj", "ss:" \o w.c.v)))
              : w \in FV(x["dns.safesearch_enabled"], "bool")})
 
+E19(d, e) == IF d[e].t = "obj"
+               THEN {CASE w.k = "err" -> ErrO
+                       [] w.k = "no" -> Ok(Put(d, e, "safe_search", C("obj", "ss:lit:true")))
+                       [] OTHER -> Ok(Put(Del(d, e, "safesearch_enabled"), e, "safe_search", C("obj", "ss:" \o w.c.v)))
+                     : w \in FV(d[K(e, "safesearch_enabled")], "bool")}
+               ELSE {Ok(d), ErrO}
 S19(d) == WithSec(d, "clients", LAMBDA x :
     UNION {CASE p.k = "err" -> {ErrO}
              [] p.k = "no" -> {Ok(x)}
              [] OTHER ->
-                IF HasElem(x, p.c)
-                  THEN IF ElemObj(x)
-                         THEN {CASE w.k = "err" -> ErrO
-                                 [] w.k = "no" -> Ok(Put(x, "cl0", "safe_search", C("obj", "ss:lit:true")))
-                                 [] OTHER -> Ok(Put(Del(x, "cl0", "safesearch_enabled"), "cl0", "safe_search",
-                                                    C("obj", "ss:" \o w.c.v)))
-                               : w \in FV(x["cl0.safesearch_enabled"], "bool")}
-                         ELSE {Ok(x), ErrO}
-                  ELSE Untracked(x, p.c)
+                IF HasElem(x, p.c) THEN MapElems(x, E19) ELSE Untracked(x, p.c)
            : p \in FV(x["clients.persistent"], "list")})
 
 S20(d) == WithSec(d, "statistics", LAMBDA x :
@@ -359,18 +382,17 @@ S21(d) == WithSec(d, "dns", LAMBDA x :
              ELSE Ok(Put(x, "dns", "blocked_services", C("obj", "bsvc:" \o VOf(w))))
              : w \in FV(x["dns.blocked_services"], "list")})
 
+E22(d, e) == IF d[e].t = "obj"
+               THEN {CASE w.k = "err" -> ErrO
+                       [] w.k = "no" -> Ok(d)
+                       [] OTHER -> Ok(Put(d, e, "blocked_services", C("obj", "bsvc:" \o w.c.v)))
+                     : w \in FV(d[K(e, "blocked_services")], "list")}
+               ELSE {ErrO, Ok(d)}
 S22(d) == WithSec(d, "clients", LAMBDA x :
     UNION {CASE p.k = "err" -> {ErrO}
              [] p.k = "no" -> {Ok(x)}
              [] OTHER ->
-                IF HasElem(x, p.c)
-                  THEN IF ElemObj(x)
-                         THEN {CASE w.k = "err" -> ErrO
-                                 [] w.k = "no" -> Ok(x)
-                                 [] OTHER -> Ok(Put(x, "cl0", "blocked_services", C("obj", "bsvc:" \o w.c.v)))
-                               : w \in FV(x["cl0.blocked_services"], "list")}
-                         ELSE {ErrO, Ok(x)}
-                  ELSE Untracked(x, p.c)
+                IF HasElem(x, p.c) THEN MapElems(x, E22) ELSE Untracked(x, p.c)
            : p \in FV(x["clients.persistent"], "list")})
 
 \* Strings the spec knows not to be IP addresses (step 23 fails on them).
@@ -475,9 +497,9 @@ Concern == [i \in 1..Last |->
     CASE i = 1 -> {}
       [] i = 2 -> {"coredns", "dns"}
       [] i = 3 -> DnsKeys({"bootstrap_dns"})
-      [] i = 4 -> {"clients", "cl0", "cl0.use_global_blocked_services"}
+      [] i = 4 -> {"clients"} \cup ElemKeys \cup ElK({"use_global_blocked_services"})
       [] i = 5 -> {"auth_name", "auth_pass", "users"}
-      [] i = 6 -> {"clients", "cl0", "cl0.ip", "cl0.mac", "cl0.ids"}
+      [] i = 6 -> {"clients"} \cup ElemKeys \cup ElK({"ip", "mac", "ids"})
       [] i = 7 -> {"dhcp"} \cup D("dhcp")
       [] i = 8 -> DnsKeys({"bind_host", "bind_hosts"})
       [] i = 9 -> DnsKeys({"autohost_tld", "local_domain_name"})
@@ -491,10 +513,10 @@ Concern == [i \in 1..Last |->
       [] i = 16 -> {"statistics"} \cup D("statistics") \cup DnsKeys({"statistics_interval"})
       [] i = 17 -> DnsKeys({"edns_client_subnet"})
       [] i = 18 -> DnsKeys({"safe_search", "safesearch_enabled"})
-      [] i = 19 -> {"clients", "clients.persistent", "cl0", "cl0.safesearch_enabled", "cl0.safe_search"}
+      [] i = 19 -> {"clients", "clients.persistent"} \cup ElemKeys \cup ElK({"safesearch_enabled", "safe_search"})
       [] i = 20 -> {"statistics", "statistics.interval"}
       [] i = 21 -> DnsKeys({"blocked_services"})
-      [] i = 22 -> {"clients", "clients.persistent", "cl0", "cl0.blocked_services"}
+      [] i = 22 -> {"clients", "clients.persistent"} \cup ElemKeys \cup ElK({"blocked_services"})
       [] i = 23 -> {"bind_host", "bind_port", "web_session_ttl", "http"} \cup D("http")
       [] i = 24 -> {"log"} \cup D("log") \cup {"log_file", "log_max_backups", "log_max_size", "log_max_age",
                                                 "log_compress", "log_localtime", "verbose"}
@@ -548,6 +570,7 @@ DevKinds(v, k) ==
     ELSE IF c.t = "absent" THEN
         \* a key the golden file does not have but a later step looks at,
         \* or a key nobody knows
+        (IF k \in RecKeys(v) THEN {"recs"} ELSE {}) \cup
         (IF k \in {"zz_extra", "dns.zz_extra", "cl0.zz_extra"} THEN {"str"}
          ELSE IF k \in ConcernedFrom(v) THEN {"null", "float"} \cup (IF k \in SectionKeys THEN {"empty"} ELSE {})
          ELSE {})
@@ -561,6 +584,8 @@ DevKinds(v, k) ==
            \cup (IF c.t = "str" /\ k \in ConcFrom[v] THEN {"estr"} ELSE {})
            \cup (IF k = "bind_host" THEN {"str", "v6", "hostport"} ELSE {})
            \cup (IF k = "auth_pass" THEN {"long"} ELSE {})
+           \cup (IF k \in RecKeys(v) THEN {"recs"} ELSE {})
+           \cup (IF k = "filters" THEN DOMAIN Perms ELSE {})
            \cup (IF c.t = "list" /\ k \in ConcFrom[v]
                    THEN {"badelem"} ELSE {})
            \cup (IF k \in {"dns.upstream_dns", "dns.local_ptr_upstreams"} THEN {"oddstrs"} ELSE {})
@@ -571,7 +596,7 @@ DevKinds(v, k) ==
 \* The parent of a deviated key must be a map in the golden file.
 Placeable(v, k) ==
     LET b == BaseDocs[v] IN
-    /\ k \notin {"cl0", "coredns"} \/ b[k].t # "absent"
+    /\ k \notin ElemKeys \cup {"coredns"} \/ b[k].t # "absent"
     /\ \A s \in Secs : k \in ChildMap[s] =>
          IF s = "dns" /\ v < 2 THEN b["coredns"].v = "sec" ELSE b[s].v = "sec"
     /\ (v < 2 => k # "dns")
@@ -598,6 +623,8 @@ DevCell(k, c, kind) ==
       [] kind = "hostport" -> C("str", "lit:\"127.0.0.1:80\"")
       [] kind = "long" -> C("str", LongStr)
       [] kind = "badelem" -> C("list", "lit:[1.5,null]")
+      [] kind = "recs" -> C("list", RecsLit(k))
+      [] kind \in DOMAIN Perms -> C("list", Perms[kind])
       [] kind = "oddstrs" -> C("list", OddStrs)
       [] kind = "dotlist" -> C("list", DotList)
       [] kind = "future" -> C("int", "lit:30")
@@ -655,7 +682,8 @@ Analyse3(devs, d0, sd0, s, one) ==
      pres |-> \A f \in one.oks : \A k \in Keys \ ConcFrom[IF s < 0 THEN Last ELSE s] : f[k] = sd0[k],
      pi |-> s < 0 \/ Commutes({d0}, s),
      idem |-> \A f \in one.oks : \A m \in {Migrate(f, Last)} : m.same /\ ~m.err /\ m.oks = {},
-     valid |-> devs # <<>> \/ (s = Last /\ one.same) \/ (~one.err /\ Cardinality(one.oks) = 1)]
+     valid |-> (devs # <<>> /\ devs[1].k # "@clients") \/ (s = Last /\ one.same)
+                 \/ (~one.err /\ Cardinality(one.oks) = 1)]
 AnalyseDoc(dd, devs) ==
     CHOOSE r \in UNION {{Analyse3(devs, d0, sd0, VerOf(d0), one) : sd0 \in {Ser(d0)}, one \in {Migrate(d0, Last)}}
                           : d0 \in {dd}} : TRUE
@@ -672,6 +700,46 @@ Analyse(v, devs) == AnalyseDoc(ApplyDevs(BaseDocs[v], v, devs), devs)
 EmptyDoc == [k \in Keys |-> Absent]
 DocClasses == {"empty", "comment", "null", "tilde", "scalar", "strdoc", "list"}
 
+(***************************************************************************)
+(* Families of valid documents with two or three clients of DIFFERENT      *)
+(* shapes, in every order.  An element is the golden client with its own   *)
+(* name and address and two optional settings present or absent in the     *)
+(* form of the document's schema: blocked services (a list before schema   *)
+(* 22, an object with a schedule from 22 on) and safe search (a flag       *)
+(* before schema 19, an object from 19 on).  These are valid documents:    *)
+(* ValidUpgrades demands exactly one result and no error, and the harness  *)
+(* additionally hands every one of them to the real loader.                *)
+(***************************************************************************)
+Feats    == {[bs |-> b, ss |-> x] : b, x \in BOOLEAN}
+FamSeqs  == {<<a, b>> : a, b \in Feats} \cup {<<a, b, c>> : a, b, c \in Feats}
+Distinct(fs) == \A i, j \in DOMAIN fs : i # j => fs[i] # fs[j]
+FeatCode(f) == (IF f.bs THEN "b" ELSE "-") \o (IF f.ss THEN "s" ELSE "-")
+FamCode(fs) == IF Len(fs) = 2 THEN FeatCode(fs[1]) \o "," \o FeatCode(fs[2])
+               ELSE FeatCode(fs[1]) \o "," \o FeatCode(fs[2]) \o "," \o FeatCode(fs[3])
+NameLit == <<"lit:\"c0\"", "lit:\"c1\"", "lit:\"c2\"">>
+IPLit   == <<"lit:\"10.0.0.1\"", "lit:\"10.0.0.2\"", "lit:\"10.0.0.3\"">>
+IdsLit  == <<"lit:[\"10.0.0.1\"]", "lit:[\"10.0.0.2\"]", "lit:[\"10.0.0.3\"]">>
+BsLit   == "lit:[\"500px\"]"
+ElemCell(v, i, f, n) ==
+    LET bc == BaseDocs[v][K("cl0", n)] IN
+    CASE n = "name" -> C("str", NameLit[i])
+      [] n = "ip" /\ v < 6 -> C("str", IPLit[i])
+      [] n = "ids" /\ v >= 6 -> C("list", IdsLit[i])
+      [] n = "blocked_services" ->
+           IF f.bs THEN (IF v < 22 THEN C("list", BsLit) ELSE C("obj", "bsvc:" \o BsLit)) ELSE Absent
+      [] n = "safesearch_enabled" /\ v < 19 -> IF f.ss THEN True ELSE Absent
+      [] n = "safe_search" /\ v >= 19 -> IF f.ss THEN C("obj", "ss:lit:true") ELSE Absent
+      [] OTHER -> IF bc.v = "src:" \o K("cl0", n) THEN C(bc.t, "src:" \o K(ElemSeq[i], n)) ELSE bc
+\* (element index, child name) of an element key
+ElKeyInfo == [k \in UNION {ChildMap[e] : e \in ElemKeys} |->
+                CHOOSE pr \in {<<i, n>> : i \in 1..3, n \in ElNames} : K0(ElemSeq[pr[1]], pr[2]) = k]
+FamDoc(v, fs) ==
+    [k \in Keys |-> IF k \in DOMAIN ElKeyInfo
+                      THEN (IF ElKeyInfo[k][1] <= Len(fs)
+                              THEN ElemCell(v, ElKeyInfo[k][1], fs[ElKeyInfo[k][1]], ElKeyInfo[k][2]) ELSE Absent)
+                    ELSE IF \E i \in 1..Len(fs) : k = ElemSeq[i] THEN SecC
+                    ELSE BaseDocs[v][k]]
+
 Emit(kind, v, devs, r, basef) ==
     PrintT(<<"@@V", ToJson([kind |-> kind, v |-> v, devs |-> devs,
                             err |-> r.one.err \/ (kind = "doc" /\ devs[1].d \in DocClasses), start |-> r.start,
@@ -682,14 +750,16 @@ Emit(kind, v, devs, r, basef) ==
 BaseFinals == [v \in 0..Last |-> IF v = Last THEN Ser(BaseDocs[v])
                                    ELSE LET o == Migrate(BaseDocs[v], Last).oks IN CHOOSE f \in o : TRUE]
 
-Finish(kind, v, devs) ==
-    \E r \in {IF kind = "doc"
-                THEN AnalyseDoc(IF devs[1].d = "stamp" THEN Stamp(EmptyDoc, v) ELSE EmptyDoc, devs)
-                ELSE Analyse(v, devs)} :
+FinishDoc(kind, v, devs, dd) ==
+    \E r \in {AnalyseDoc(dd, devs)} :
     /\ vec' = [v |-> v, devs |-> devs, stamps |-> r.stamps, pres |-> r.pres, pi |-> r.pi, idem |-> r.idem,
                valid |-> r.valid, nout |-> Cardinality(r.one.oks), err |-> r.one.err, same |-> r.one.same]
     /\ st' = "done"
     /\ Emit(kind, v, devs, r, IF kind \in {"base", "doc"} THEN <<>> ELSE BaseFinals[v])
+Finish(kind, v, devs) ==
+    FinishDoc(kind, v, devs,
+              IF kind = "doc" THEN (IF devs[1].d = "stamp" THEN Stamp(EmptyDoc, v) ELSE EmptyDoc)
+              ELSE ApplyDevs(BaseDocs[v], v, devs))
 
 \* The enumeration fans out in three levels (version, key, kind) so that
 \* TLC's workers share it.
@@ -699,6 +769,11 @@ PickKey == /\ st = "ver"
               \/ \E k \in DevKeys(vec.v) : st' = "key" /\ vec' = [v |-> vec.v, k |-> k]
 
 PickBase == st = "base" /\ ~Pairs /\ Finish("base", vec.v, <<>>)
+
+\* "@clients" is not a key either: the deviation names the shapes of the clients.
+PickFam == /\ st = "base" /\ ~Pairs /\ BaseDocs[vec.v]["cl0"].v = "sec"
+           /\ \E fs \in FamSeqs : Distinct(fs) /\
+                FinishDoc("fam", vec.v, <<[k |-> "@clients", d |-> FamCode(fs)]>>, FamDoc(vec.v, fs))
 
 \* "@doc" is not a key: the deviation names the class of the whole file.
 PickDoc == /\ st = "base" /\ ~Pairs
@@ -720,7 +795,7 @@ PickPair == /\ st = "key" /\ Pairs
                          Finish("vec", v, <<[k |-> h, d |-> hd], [k |-> k, d |-> kd]>>)
 
 Init == st = "pick" /\ vec = [v |-> 0 - 1]
-Next == PickVer \/ PickKey \/ PickBase \/ PickDoc \/ PickSingle \/ PickPair
+Next == PickVer \/ PickKey \/ PickBase \/ PickFam \/ PickDoc \/ PickSingle \/ PickPair
 Spec == Init /\ [][Next]_vars
 
 \* ----------------------------------------------- properties of the statement
